@@ -8,7 +8,7 @@ RULE = ("(0) spec/Totality.tla, the outcome protocol, is model-checked exhaustiv
         "(a) direction A: TLC enumerates all strings of length <= 3 (thorough 4) over 16 lexically interesting characters (spec/FamC13.tla); the reference "
         "scanner decides which are lexical errors; (b) every single-token edit (delete, duplicate, swap, replace by each of 51 catalog tokens) of the 47 base "
         "programs of spec/FamC12.tla, every k-th in quick; (c) all 729 import graphs over three files with self/mutual imports and missing files, judged by "
-        "spec/TshModules.tla (cyclic or missing => error, else a script); (d) seeded random texts. Every call runs for both targets in a worker subprocess "
+        "spec/TshModules.tla (cyclic or missing => error, else a script); (d) seeded random texts; (e) the well-formed programs of the direction-A families of C01-C04, C08, C10, C16-C18 (every construct, builtin, argument class incl. empty and nil arguments, nesting shape). Every call runs for both targets in a worker subprocess "
         "(stack cap, address-space cap, deadline); TLC validates the recorded outcome against the protocol (spec/TotalRun.tla). Distinct = distinct input.")
 ASSUME = ["a dead worker process or an exceeded deadline is recorded as the outcome of that single input (one input at a time per worker)",
           "arbitrary bytes are represented by an alphabet of ASCII characters plus one two-byte UTF-8 letter (TLC strings are not byte strings)"]
@@ -68,6 +68,14 @@ def run(ctx):
     write_ndjson(pp, [dict(b, pieces=segs[b["id"]]["pieces"]) for b in bases if not segs[b["id"]]["err"]])
     ctx.run_vh("edits", pp, pe, 12 if quick else 1)
     total(ctx, read_ndjson(pe), "edits", False)
+    # (e) well-formed programs: the direction-A families of the other properties (every construct, builtin, argument class, nesting shape, renaming)
+    progs = []
+    for fam, stride in (("FamC01", 9), ("FamC02", 2), ("FamC03", 5), ("FamC04", 2), ("FamC08", 23), ("FamC10", 11), ("FamC16", 1), ("FamC17", 3), ("FamC18", 1)):
+        cs = ctx.tlc_family(fam, constants={"Tier": '"quick"'}, timeout=3000)
+        cs.sort(key=lambda c: c["id"])
+        for c in cs[::(stride if quick else 1)]:
+            progs.append({"id": "C13/prog/" + c["id"], "mode": "proto", "expect": "any", "prog": c["prog"], "text": ""})
+    total(ctx, progs, "progs", False)
     # seeded random texts
     rnd = random.Random(ctx.seed)
     alpha = list(" \n\t\"`'\\/*-+=!<>&|(){}[],;:.@#$~") + list("abxyz019_") + ["if ", "for ", "func ", "print(", ":= ", "import ", "/*", "*/", "//"]
